@@ -9,7 +9,8 @@ FIELD_NAMES = ["a", "b", "c", "d", "e", "x", "y", "value", "inner", "data", "f1"
 UNDERSCORE_NAMES = ["_id", "__raw", "_marker", "_x", "x_", "_"  "a"]
 RAW_NAMES = ["r#type", "r#fn", "r#match", "r#struct", "r#loop"]
 VARIANT_NAMES = ["V0", "V1", "V2", "V3", "V4", "Alpha", "Beta", "Gamma", "Unit", "Pair", "Rec"]
-RENAMES = ["renamed", "Other", "k0", "Zed", "alias"]
+# (names that the other traits' impls use for their own helpers are ordinary names here: they must not leak across traits)
+RENAMES = ["renamed", "Other", "k0", "Zed", "alias", "H", "HH", "Educe__DebugField", "Educe__RawString", "state"]
 
 BOUND_TRAIT = {
     "Debug": "::core::fmt::Debug", "Clone": "::core::clone::Clone", "Copy": "::core::marker::Copy",
@@ -57,6 +58,7 @@ class Opts:
         self.p_rank_edge = 0.2      # chance (per variant) of explicit ranks in the range of the default ranks
         self.param_attrs = True     # attributes (`#[allow(..)]`, `#[cfg(all())]`) on some generic parameters
         self.named_methods = True   # spell some custom methods as `::verif_rt::named::<StdTraitName>::<method>`
+        self.p_packed = 0.0         # chance of #[repr(packed)] on a struct whose fields all have alignment 1
         self.all_method = False     # comparison-like traits: every field goes through a custom method or is ignored
         self.rich = False           # allow the rich generics flavour (two lifetimes, two type
                                     # parameters, a const parameter, a user where-clause)
@@ -64,6 +66,7 @@ class Opts:
 
 
 PARAM_ATTRS = ["#[allow(non_camel_case_types)]", "#[cfg(all())]", "#[allow(unused)]", "#[allow(non_upper_case_globals, non_snake_case)]"]
+ALIGN1_KINDS = {"T", "Ct", "P", "OptT", "OptCt", "ArrT", "ArrCt", "TupT", "U8"}
 NAMED_METHODS = {"eq_mod2": "named::PartialEq::eq", "cmp_rev": "named::Ord::cmp", "pcmp_rev": "named::PartialOrd::partial_cmp",
                  "hash_alt": "named::Hash::hash", "fmt_alt": "named::Debug::fmt", "clone_alt": "named::Clone::clone"}
 DEFAULT_NAMES = None   # C19 installs a hostile name provider here
@@ -207,6 +210,13 @@ def random_type(rng, traits, opts=None):
 
     if kind == "struct":
         td.variants = [mk_variant(None)]
+        if o.p_packed and not td.params and td.variants[0].fields and rng.random() < o.p_packed \
+                and all(f.kind.key in ALIGN1_KINDS for f in td.variants[0].fields) \
+                and (not td.other_derives or all(f.kind.key in ("Ct", "OptCt", "ArrCt", "U8") for f in td.variants[0].fields)):
+            # (std's derives, which provide the partner traits, copy the fields of a packed struct: they need Copy fields)
+            # every field has alignment 1 (the instrumented types are made of u8 / i8): references to the fields of the
+            # packed struct are fine, the impls are the field-wise ones
+            td.reprs = [rng.choice(["packed", "C, packed", "packed(1)", "C", "packed(2)"])]
     else:
         lo = 1 if (tset & {"Default", "Deref", "DerefMut", "Into"} or not o.allow_empty_enum) else 0
         nv = rng.randint(lo, o.max_variants)
